@@ -45,7 +45,10 @@ func genKeepAlive(t *rapid.T) kaCase {
 				g := frac("activegap", 10, 100)
 				add(gwgen.Adv(g))
 				elapsed += g
-				switch rapid.IntRange(0, 2).Draw(t, "what") {
+				switch rapid.IntRange(0, 3).Draw(t, "what") {
+				case 3:
+					// a packet which the gateway answers itself (nothing is forwarded for it)
+					add(gwgen.SN(gwgen.Register(fmt.Sprintf("t/r%d", i), uint16(50+i))))
 				case 0:
 					add(gwgen.SN(gwgen.Pingreq("")))
 				case 1:
@@ -129,7 +132,7 @@ func genKeepAlive(t *rapid.T) kaCase {
 func TestC12(t *testing.T) {
 	vf.Check(t, vf.Prop[kaCase]{
 		ID: "C12", Name: "broker-keepalive-kept", Bubble: true,
-		Rule: "timed histories over 6-20 keep-alive periods (K in {1,2,5,10,30,256} s) in which the client meets its obligations: active phases in which it sends PINGREQ / PUBLISH / SUBSCRIBE at gaps of 10-100% of K; sleeps with D<K, D=K, D>K, D>>K; 0-4 wake-ups per sleep at 10-100% of D (a third exactly at D), sometimes re-announcing the sleep with the same or another duration (K, 2K, K/2); return to active by CONNECT within D (half of these CONNECTs repeat K in their Duration field, the others carry 0, 10K or K/2: the field is ignored for a sleeping client). Non-trivial = a history containing a sleep; the D classes are reported as labels; distinct by script.",
+		Rule: "timed histories over 6-20 keep-alive periods (K in {1,2,5,10,30,256} s) in which the client meets its obligations: active phases in which it sends PINGREQ / PUBLISH / SUBSCRIBE / REGISTER (which the gateway answers itself) at gaps of 10-100% of K; sleeps with D<K, D=K, D>K, D>>K; 0-4 wake-ups per sleep at 10-100% of D (a third exactly at D), sometimes re-announcing the sleep with the same or another duration (K, 2K, K/2); return to active by CONNECT within D (half of these CONNECTs repeat K in their Duration field, the others carry 0, 10K or K/2: the field is ignored for a sleeping client). Non-trivial = a history containing a sleep; the D classes are reported as labels; distinct by script.",
 		Assumptions: []string{"the oracle reads the virtual timestamps of everything written to the broker connection: from the MQTT CONNECT to the end of the history no gap may exceed 1.5 x K",
 			"after a wake-up's PINGRESP the client is asleep again and owes its next PINGREQ within the announced duration (doc/specification-interpretation.md)"},
 		Gen: genKeepAlive,
@@ -158,6 +161,21 @@ func TestC12(t *testing.T) {
 			check := func(now int64, what string) bool {
 				if last >= 0 && now-last > limit {
 					phase := phaseAt(tr, last)
+					// what did the client send in the gap? If all of it were packets the gateway answers
+					// itself (REGISTER), the gap has a cause of its own
+					own, other := 0, 0
+					for _, e := range tr.Events {
+						if e.Dir == gwsim.CG && e.SN != nil && e.Ns > last && e.Ns <= now {
+							if e.SN.Type == snref.REGISTER {
+								own++
+							} else {
+								other++
+							}
+						}
+					}
+					if phase == "active" && own > 0 && other <= 1 {
+						phase += "/client-sent-only-packets-the-gateway-answers-itself"
+					}
 					r.Fail("broker-starved/"+phase, "the gateway wrote nothing to the broker for %.1f s (keep-alive %d s, limit %.1f s): after %s at %.1f s until %s at %.1f s; the client state then: %s\n%s",
 						float64(now-last)/1e9, c.K, float64(limit)/1e9, lastWhat, float64(last)/1e9, what, float64(now)/1e9, phase, traceWindow(tr, last, now))
 					return false
